@@ -24,6 +24,7 @@ import pytz
 import stix2
 import stix2.exceptions
 import stix2.properties
+import stix2.utils
 from stix2.serialization import STIXJSONEncoder
 from stix2.utils import STIXdatetime, format_datetime, parse_into_datetime
 
@@ -109,6 +110,15 @@ OBJ_ROUTES = {
 }
 
 
+def forms(p, c, af):
+    """the same precision / constraint in another public argument form"""
+    if af == "enum":
+        return stix2.utils.Precision[p.upper()], stix2.utils.PrecisionConstraint[c.upper()]
+    if af == "upper":
+        return p.upper(), c.upper()
+    return p, c
+
+
 def run(case):
     k = case["k"]
     p, c = case["p"], case["c"]
@@ -126,7 +136,11 @@ def run(case):
             out = exc(e)
     elif k == "parse":
         try:
-            r = parse_into_datetime(value, p, c)
+            P, C = forms(p, c, case.get("af"))
+            if case.get("af") == "keyword":
+                r = parse_into_datetime(value, precision=P, precision_constraint=C)
+            else:
+                r = parse_into_datetime(value, P, C)
         except Exception as e:  # noqa: BLE001
             return exc(e) + " || -"
         try:
@@ -138,7 +152,11 @@ def run(case):
         out = "OK %d %s %s%s" % (local_us(r), off_us(r), t, pr)
     elif k == "prop":
         try:
-            prop = stix2.properties.TimestampProperty(precision=p, precision_constraint=c)
+            P, C = forms(p, c, case.get("af"))
+            if case.get("af") == "positional":
+                prop = stix2.properties.TimestampProperty(P, C)
+            else:
+                prop = stix2.properties.TimestampProperty(precision=P, precision_constraint=C)
             cleaned = via(prop.clean(value, False)[0], how)
             text = json.loads(json.dumps({"x": cleaned}, cls=STIXJSONEncoder))["x"]
             out = "OK " + text
